@@ -99,18 +99,33 @@ inductive Answer
   | empty                 -- an empty result array
   | value (j : Json)      -- the first element
 
-/-- `spawn_fetch_configuration`: the new server state and the messages shown.  Note that only
-    `cfg` changes: the Cache keeps the parameters it was constructed with (`ccfg`). -/
+/-- an accepted configuration: stored for the per-request gates and handed to the storer
+    (`VersionStorer::configure`), which replaces the two parameters the Cache was constructed with -/
+def applyConfig (s : Srv) (c : Config) : Srv :=
+  { s with cfg := c,
+           ccfg := if Generated.configReachesCache then ⟨c.refreshInterval, c.ignorePrerelease⟩ else s.ccfg }
+
+/-- `spawn_fetch_configuration`: the new server state and the messages shown -/
 def applyAnswer (s : Srv) (a : Answer) : Srv × List Msg :=
   match a with
   | .failed | .empty => (s, [])
   | .value j =>
     match j with
-    | .null => if Generated.configNullIsDefault then ({ s with cfg := defaultConfig }, []) else (s, [.show "error" "Failed to parse configuration".toList])
+    | .null => if Generated.configNullIsDefault then (applyConfig s defaultConfig, []) else (s, [.show "error" "Failed to parse configuration".toList])
     | j =>
       match parseConfig j with
-      | some c => ({ s with cfg := c }, [])
+      | some c => (applyConfig s c, [])
       | none => (s, [.show "error" "Failed to parse configuration".toList])
+
+/-- `initialized`: the configuration request and the start-up refresh of the given registries; the
+    refresh waits for the answer to be applied (`configured.await`) -/
+def startUp (s : Srv) (a : Answer) (regs : List Text) : Srv × List Msg :=
+  if Generated.refreshWaitsForConfig then
+    let r := applyAnswer s a
+    (regs.foldl (fun s r => Server.startRefresh s r) r.1, r.2)
+  else
+    let s1 := regs.foldl (fun s r => Server.startRefresh s r) s
+    applyAnswer s1 a
 
 end ConfigM
 end Vlsp
